@@ -27,10 +27,11 @@ def _fname(pe):
 
 
 class PathSearch:
-    def __init__(self, prog, f, place_hook=None, max_states=80000):
+    def __init__(self, prog, f, place_hook=None, max_states=80000, fixed_locals=None):
         self.p = prog
         self.f = f
         self.place_hook = place_hook
+        self.fixed = dict(fixed_locals or {})      # locals whose value is given (`the opcode byte is 0x03`), wherever they are assigned
         self.max_states = max_states
         self._sw = {}
         for bi, adt, m, other, src in core.enum_switches(prog, f):
@@ -198,6 +199,8 @@ class PathSearch:
         base = place[0]
         projs = list(place[1:])
         if not projs:
+            if base in self.fixed:
+                val = self.fixed[base]
             if val is None:
                 env.pop(base, None)
             else:
@@ -296,10 +299,11 @@ class PathSearch:
             if v is not None and v[0] == "k" and v[1] in (0, 1):
                 return ("k", 1 - v[1])
             return None
-        if r == "bin" and rv.get("op") in ("Eq", "Ne"):
+        if r == "bin" and rv.get("op") in ("Eq", "Ne", "Lt", "Le", "Gt", "Ge"):
             a, b = [self.operand(env, o) for o in rv["o"]]
             if a is not None and b is not None and a[0] == "k" and b[0] == "k":
-                return ("k", int((a[1] == b[1]) == (rv["op"] == "Eq")))
+                x, y = a[1], b[1]
+                return ("k", int({"Eq": x == y, "Ne": x != y, "Lt": x < y, "Le": x <= y, "Gt": x > y, "Ge": x >= y}[rv["op"]]))
             return None
         return None
 
@@ -462,6 +466,7 @@ class PathSearch:
         goal = set(goal) if goal is not None else None
         via = set(via) if via is not None else None
         env0 = dict(init or {})
+        env0.update(self.fixed)
         st0 = self._key(start, env0, via is None or start in via)
         seen = {st0}
         work = [(start, env0, via is None or start in via, (start,))]
